@@ -162,6 +162,86 @@ def g_bad(rng):
     return "!" + rng.choice(["", " "]) + word + args, "UnknownPreProcessorCommand", "bang-unknown"
 
 
+def bits_for(rng, s, quoted, perturb=0.02):
+    out = []
+    for k, c in enumerate(s):
+        must = c in "\\\n\r" or (quoted and c == '"') or (not quoted and k == 0 and c == '"')
+        b = must or rng.random() < 0.3
+        if rng.random() < perturb:
+            b = not b
+        out.append("1" if b else "0")
+    return "".join(out) or "-"
+
+
+def g_bad_spec(rng):
+    """wire form of a member of an error class of C08_errors (DS.ParserClasses.bad_line); mostly valid"""
+    from props import c01
+    lead, trail = c01.g_ws(rng), c01.g_ws(rng)
+    r = rng.randint(0, 9)
+    if r <= 4:
+        has_l, has_o = rng.random() < 0.3, rng.random() < 0.4
+        label = c01.g_name(rng) if has_l else None
+        output = c01.g_name(rng, first=not has_l, no_eq=True) if has_o else None
+        command = c01.g_name(rng, first=not (has_l or has_o), no_eq=not has_o)
+        args = [c01.g_argstr(rng) for _ in range(rng.choice([0, 0, 1, 2, 3]))]
+        argch = [c01.choose_arg(rng, a, k == 0 and not has_o, 0.01) for k, a in enumerate(args)]
+        item = c01.mk_item(label, output, command, args, "", "", rng.randint(0, 1), rng.randint(0, 2), rng.randint(0, 2), argch, None, "L")
+        txt = "".join(rng.choice("abcxyz019 \t=:$%{}é#\"\\\r") if rng.random() < 0.9 else rand_scalar(rng) for _ in range(rng.randint(0, 5)))
+        k = rng.randint(0, 5)
+        if k == 0:
+            tok = "U,%s,%s" % (enc_str(txt), bits_for(rng, txt, True))
+        else:
+            q = rng.random() < 0.5
+            if not q:
+                txt = txt.replace(" ", "a").replace("#", "b")
+                if rng.random() < 0.95:
+                    txt = txt.lstrip("=")
+            rest = "".join(rng.choice("abc \"\\#{}$") for _ in range(rng.randint(0, 3)))
+            if k in (1, 2):
+                x = rng.choice("abcxyz019 ${}%=:!#'/é\t") if rng.random() < 0.95 else rng.choice("nrt\"\\")
+                if x == "$":
+                    x = "q"
+                fault = "B,%d,%s" % (ord(x), enc_str(rest))
+            elif k == 3:
+                fault = "D,%d,%s" % (ord(rng.choice("ax} ${")), enc_str(rest))
+            elif k == 4:
+                fault = "G,0,e"
+            else:
+                fault = "H,0,e"
+            tok = "E,%d,%s,%s,%s" % (1 if q else 0, enc_str(txt), bits_for(rng, txt, q), fault)
+        body = "T\t%s\t%d\t%s" % (item, rng.randint(0, 2), tok)
+    elif r <= 7:
+        lab = c01.g_name(rng) if rng.random() < 0.4 else None
+        w = rng.randint(0, 2)
+        if w == 0:
+            pos = "L"
+        elif w == 1:
+            pos = "F,%s,%d" % (c01.enc_opt(lab), rng.randint(0, 2))
+        else:
+            pos = "C,%s,%d,%s,%d,%d" % (c01.enc_opt(lab), rng.randint(0, 2), enc_str(c01.g_name(rng, first=lab is None, no_eq=True)), rng.randint(0, 2), rng.randint(0, 2))
+        rest = "".join(rng.choice("abc \"\\#{}$=x") if rng.random() < 0.9 else rand_scalar(rng) for _ in range(rng.randint(0, 6)))
+        if rng.random() < 0.5:
+            nf = "Q,%s" % enc_str(rest)
+        else:
+            pre = c01.g_name(rng, first=True, no_eq=True) if rng.random() < 0.8 else ""
+            nf = "B,%s,%s" % (enc_str(pre), enc_str(rest))
+        body = "N\t%s\t%s" % (pos, nf)
+    elif r == 8:
+        body = "A"
+    else:
+        word = rng.choice(["unknown", "includefiles", "Print", "include_file", "print\tx", "x", "printx", "#", "!", "print#", "é", "print", "include_files"])
+        if rng.random() < 0.5:
+            more = "N"
+        else:
+            args = [c01.g_argstr(rng) for _ in range(rng.choice([0, 1, 2]))]
+            argch = [c01.choose_arg(rng, a, False, 0.01) for a in args]
+            ac = " ".join("%d:%d:%s" % (g, q, b if b else "-") for (g, q, b) in argch) if argch else "-"
+            cm = "N" if rng.random() < 0.6 else "%d:%s" % (rng.randint(0, 2), enc_str("".join(rng.choice("abc \"\\#") for _ in range(rng.randint(0, 5))) + "z"))
+            more = "%s;%s;%s" % (vlib.enc_list(args), ac, cm)
+        body = "K\t%d\t%s\t%s" % (rng.randint(0, 2), enc_str(word), more)
+    return "B\t%s\t%s\t%s" % (enc_str(lead), enc_str(trail), body)
+
+
 def rand_scalar(rng):
     while True:
         c = rng.randint(0, 0x10FFFF)
@@ -314,7 +394,14 @@ def run(ck):
     exh_total = sum(len(ALPHA) ** n for n in range(0, max_len + 1))
     exh_ok = exh_ne = exh_err = 0
     bad_blocks = []
+    ix_diff = 0
     for k, (m, i) in enumerate(zip(xm, xi)):
+        m, _, ixd = m.partition("\t")
+        xm[k] = m
+        if ixd.startswith("IXDIFF "):
+            ix_diff += int(ixd.split(" ")[1])
+        else:
+            ix_diff += 1
         f = m.split(" ")
         if len(f) == 5 and f[0] == "H":
             exh_ok += int(f[2]); exh_ne += int(f[3]); exh_err += int(f[4])
@@ -334,9 +421,9 @@ def run(ck):
         pm, pi = ck.model(pl), ck.impl(pl)
         shown = 0
         for t, w, m, i in zip(texts, pl, pm, pi):
-            mm, _, ss = m.partition("\t")
-            if mm != i or ss != i:
-                report("exhaustive small text: model-vs-implementation", t, w, mm, ss, i)
+            mm, ss, ixr = (m.split("\t") + ["", ""])[:3]
+            if mm != i or ss != i or ixr != i:
+                report("exhaustive small text: model-vs-implementation", t, w, mm, ss, i, {"index_model": ixr})
                 shown += 1
                 if shown >= 2:
                     break
@@ -396,6 +483,26 @@ def run(ck):
             report("very long input: expected-vs-implementation", t[:300] + "...(%d characters)" % len(t), "P\t(too long; see text)",
                    "(not run)", exp[:300], i[:300], {"length": len(t)})
 
+    # (d) members of the error classes of C08_errors, rendered by the extracted render_bad, planted
+    specs = [g_bad_spec(rng) for _ in range(12000 if thorough else 2500)]
+    bo = ck.model(specs)
+    class_members = {"generated": len(specs), "valid": 0}
+    for sp_, o in zip(specs, bo):
+        f = o.split("\t")
+        if len(f) != 3:
+            ck.broken.append("driver (B case): " + o[:100])
+            continue
+        if f[0] != "V1":
+            continue
+        class_members["valid"] += 1
+        class_members[f[2]] = class_members.get(f[2], 0) + 1
+        bad = dec_str(f[1])
+        good = [g_good(rng).replace("\n", " ") for _ in range(rng.randint(0, 4))]
+        k = rng.randint(0, len(good))
+        ls = good[:k] + [bad] + good[k:]
+        style = rng.choice(["\n", "\r\n", None])
+        cases.append((join_eols(rng, ls, style), "class-member:" + sp_.split("\t")[3], "ERR %s %d" % (f[2], k + 1)))
+
     plines = ["P\t" + enc_str(t) for (t, _, _) in cases]
     pm = ck.model(plines)
     pi = ck.impl(plines)
@@ -405,7 +512,9 @@ def run(ck):
     nontriv = set()
     off_domain = 0
     for (t, tag, exp), w, m, i in zip(cases, plines, pm, pi):
-        mm, _, ss = m.partition("\t")
+        mm, ss, ixr = (m.split("\t") + ["", ""])[:3]
+        if ixr != mm:
+            ix_diff += 1
         tags[tag.split(":")[0]] = tags.get(tag.split(":")[0], 0) + 1
         if mm.startswith("ERR ReadFile"):
             off_domain += 1          # an include directive with arguments: outside the domain
@@ -416,8 +525,8 @@ def run(ck):
         nlines_hist[nl] = nlines_hist.get(nl, 0) + 1
         if nontrivial(mm):
             nontriv.add(t)
-        if mm != i or ss != i:
-            report("model-vs-implementation (%s)" % tag, t, w, mm, ss, i)
+        if mm != i or ss != i or ixr != i:
+            report("model-vs-implementation (%s)" % tag, t, w, mm, ss, i, {"index_model": ixr})
         elif exp is not None and i != exp:
             report("planted malformed line: expected-vs-implementation (%s)" % tag, t, w, mm, ss, i, {"expected": exp})
 
@@ -440,9 +549,16 @@ def run(ck):
         "result_distribution": dist,
         "lines_per_text_histogram(capped at 20)": nlines_hist,
         "planted_classes": classes_seen,
+        "class_members(rendered by the extracted render_bad; valid = extracted valid_bad)": class_members,
         "off_domain_skipped": off_domain,
         "samples": [cases[len(cases) // 7][0][:120], cases[len(cases) // 2][0][:120], cases[-1][0][:120]],
     })
+    ck.obligations.append("extracted index model (ParserIx) = extracted suffix model (Parser) on every evaluated text (sanity of C08_refine)")
+    if ix_diff == 0:
+        ck.discharged.append("index model = suffix model on all evaluated texts")
+    else:
+        ck.broken.append("index model differs from suffix model on %d evaluated texts" % ix_diff)
+    ck.coverage["index_model_disagreements"] = ix_diff
     ck.report_broken(found)
     ck.assumptions += [
         "include directives with arguments are outside the domain (they read files); the model's include handler refuses them",
